@@ -34,7 +34,7 @@ Theorem C20_expand : forall cwd home fs filename l,
     match resolve_now cwd home fs filename (path ++ ext) with
     | Err e => expand_now cwd home fs filename l = Err e
     | Ok p =>
-      match fs_target fs p ext with
+      match fs_target T_files_p8.include_cart_lines_kind fs p ext with
       | None => expand_now cwd home fs filename l = Err OtherError
       | Some ls => expand_now cwd home fs filename l =
                    Ok (map (yielded 1) (if is_cart_ext ext then lines_for_tab ls tab else ls))
@@ -45,7 +45,9 @@ Proof. exact expand_now_cases. Qed.
 Print Assumptions C20_expand.
 
 (* tab selection: NAME:n is the n-th segment between "-->8" lines (empty beyond the last), no selector
-   is the whole code including the separator lines *)
+   is the whole code including the separator lines; the lines offered are the TEXT lines of the cart's
+   code (C20_expand: fs_target with include_cart_lines_kind = 1), so a "-->8" line inside a multi-line
+   string or comment separates tabs as it does in PICO-8 *)
 Theorem C20_tab : forall ls,
   lines_for_tab ls None = ls /\
   (forall n, 0 <= n -> lines_for_tab ls (Some n) = nth (Z.to_nat n) (split_at_tabs ls) []) /\
@@ -90,13 +92,13 @@ Proof. exact recogniser_agrees. Qed.
 Print Assumptions C20_recogniser.
 
 (* C20_in_place, on code TEXT: for every cart (any number of lines, include lines at any positions),
-   every directory content and every file-system view describing the same files (view_ok: a named
-   text file is read as its bytes; a named cart's reader chunks are the lines of its code), whenever the
+   every directory content and every file-system view describing the same files (fs_agrees: a named
+   text file is read as its bytes; a named cart's reader returns its code, in chunks of any shape), whenever the
    description defines the result the model produces exactly the reference lines - so no line of the
    cart is merged with an included line, with or without final newline in the included code - and
    fails when the description says a file is missing *)
 Theorem C20_in_place : forall cwd home fs filename content bodies,
-  view_ok (resolve_now cwd home fs filename) (fs_target fs) content ->
+  fs_agrees cwd home fs filename content ->
   Forall no_nl bodies ->
   let hs := map (fun b => b ++ [10]) bodies in
   let impl := model_outcome (process_includes_now cwd home fs filename hs) in
@@ -111,7 +113,7 @@ Print Assumptions C20_in_place.
 
 (* ... hence the instance predicate the monitor evaluates on the implementation holds of the model *)
 Theorem C20_model_holds : forall cwd home fs filename files bodies,
-  view_ok (resolve_now cwd home fs filename) (fs_target fs) (lookup_content files) ->
+  fs_agrees cwd home fs filename (lookup_content files) ->
   Forall no_nl bodies ->
   let hs := map (fun b => b ++ [10]) bodies in
   holds_C20 (concat hs) files (model_outcome (process_includes_now cwd home fs filename hs)) = true.
@@ -133,6 +135,17 @@ Theorem C20_glue_variant_refuted :
   model_outcome (g_run T_files_p8.include_newline_kind) = Some [120; 61; 49; 10; 97; 61; 98; 10; 99; 61; 100; 10].
 Proof. exact glue_variant_refuted. Qed.
 Print Assumptions C20_glue_variant_refuted.
+
+(* selecting the tab on the reader's chunks (the code before the second fix) is false as well: the
+   cart  s=[[ / -->8 / ]] / t=2 / -->8 / u=3  has the tabs {s=[[}, {]] t=2}, {u=3}; `#include m.p8:1` gave u=3 *)
+Theorem C20_tab_variant_refuted :
+  concat m_chunks = m_code /\
+  holds_C20 (concat (map (fun b => b ++ [10]) m_host)) m_files (model_outcome (m_run 0)) = false /\
+  model_outcome (m_run 0) = Some [117; 61; 51; 10] /\
+  holds_C20 (concat (map (fun b => b ++ [10]) m_host)) m_files (model_outcome (m_run T_files_p8.include_cart_lines_kind)) = true /\
+  model_outcome (m_run T_files_p8.include_cart_lines_kind) = Some [93; 93; 10; 116; 61; 50; 10].
+Proof. exact tab_variant_refuted. Qed.
+Print Assumptions C20_tab_variant_refuted.
 
 (* non-vacuity: a line the description reads as an include of tab 2 of a .p8.png cart in a sub-directory,
    a plain line, an undefined one; a three-tab code *)
